@@ -152,6 +152,14 @@ var props = map[string]*propSpec{
 		QuickBudget:    45 * time.Second,
 		ThoroughBudget: 12 * time.Minute,
 	},
+	"C12": {
+		Level: "exploration",
+		Rule: "one run = one handler (affinity key from the tunnel-opening metadata, keys from {nil, a, b}) and one ReverseTunnelServer; 1-3 phases, each opening / closing (context cancel, Close of the server-side channel, carrier failure) up to 6 reverse tunnels concurrently with 2-5 client goroutines issuing routed RPCs, Ready, WaitForReady (with deadlines) and AllReverseTunnels on the pooled channels, lock-granularity schedules; after each phase the run is driven to quiescence where the registry is compared with the ground truth and 2n consecutive RPCs per pool test round-robin; finally Stop. Each pool's history (Open, Close, Pick, Ready, All with event-sequence intervals) is checked with porcupine against a sequential set model (Unknown = inconclusive); " +
+			"non-trivial = client operations ran concurrently with tunnel changes; distinct = distinct schedule digests",
+		Families:       []famPlan{{Family: "registry", Weight: 1, Batch: 20}},
+		QuickBudget:    45 * time.Second,
+		ThoroughBudget: 15 * time.Minute,
+	},
 	"C13": {
 		Level:          "exploration",
 		Rule:           "every frame of every run is fed to the protocol monitor (appendix A of DESIGN.md); non-trivial = the run carried at least 20 frames; distinct = distinct schedule digests",
